@@ -359,7 +359,7 @@ def solveBodyX (eps : α) (st : SolveStX α) : SolveStX α :=
   else solveTailX eps st sel.1 sel.2.1
 
 def solveLoopX (eps : α) : Nat → SolveStX α → SolveStX α
-  | 0, st => { st with stop := .maxIter }
+  | 0, st => { st with s := st.s.unshrink, stop := .maxIter }   -- `m_problem.unshrink()` after the loop (repair of F-C07-8)
   | fuel + 1, st =>
     let st' := solveBodyX eps st
     if st'.stop = .running then solveLoopX eps fuel st' else st'
@@ -367,7 +367,7 @@ def solveLoopX (eps : α) : Nat → SolveStX α → SolveStX α
 /-- the loop with a re-tabulation of the state after every pass (what the native driver runs);
 `solveLoopXWith id = solveLoopX` -/
 def solveLoopXWith (norm : McSx α → McSx α) (eps : α) : Nat → SolveStX α → SolveStX α
-  | 0, st => { st with stop := .maxIter }
+  | 0, st => { st with s := st.s.unshrink, stop := .maxIter }   -- `m_problem.unshrink()` after the loop (repair of F-C07-8)
   | fuel + 1, st =>
     let st' := solveBodyX eps st
     let st' := { st' with s := norm st'.s }
